@@ -182,6 +182,12 @@ int sbdf_ts_write(FILE* f, sbdf_tableslice const* slice)
 		return SBDF_ERROR_ARGUMENT_NULL;
 	}
 
+	/* a slice that does not have the columns of its table metadata cannot be read back */
+	if (slice->table_metadata && slice->no_columns != slice->table_metadata->no_columns)
+	{
+		return SBDF_ERROR_COLUMN_COUNT_MISMATCH;
+	}
+
 	error = sbdf_sec_write(f, SBDF_TABLESLICE_SECTIONID);
 	if (error)
 	{
